@@ -21,7 +21,7 @@ ASSUMPTIONS = [
     "literals, module constants, zeros/ones/eye, RNG draws and configuration scalars (floors, relevance factor, alpha) are dimension-polymorphic: 'initial/prior parameters are transformed accordingly'",
 ]
 
-ALL = list(dimrun.ROOTS)
+ALL = [r for r in dimrun.ROOTS if r not in ("gmm.lwl1", "ls.model2d")]  # shape probes of other properties (single vector / single model), not rescaling laws
 RULES = ["DIM.D1", "DIM.D2", "DIM.D3", "DIM.LOG", "DIM.SHAPE", "DIM.ABS"]
 
 
